@@ -203,6 +203,49 @@ func runC13(c *core.Ctx) {
 				c.Violate(inst+"|shared-object", caseID, fmt.Sprintf("after growing one allocation by Append, %s reads %v (allocator {C=%d L=%d K=%d})", name, mon.ShapeOf(x), ch, l, k), d)
 			}
 		}
+		// a VIEW of a live buffer outgrows the storage it shares with its
+		// parent: the storage it leaves behind is still the parent's, and later
+		// allocations (same size and smaller) must neither overlap nor wipe it
+		if k > 0 {
+			p := t.Alloc(signal.Allocator{Channels: ch, Length: k, Capacity: k})
+			for i := 0; i < p.Len(); i++ {
+				p.SetSample(i, mon.Canary(t.TypeInfo, i, 300+g))
+			}
+			var want []dyn.Val
+			for i := 0; i < p.RawCap(); i++ {
+				want = append(want, p.RawAt(i))
+			}
+			s := r.Range(0, k-1)
+			v := p.Slice(s, r.Range(s, k))
+			if pn, msg := core.Guard(func() { v.Append(src) }); pn {
+				c.Violate(inst+"|panic", caseID, "Append onto a view of a fresh allocation panicked: "+msg, d)
+				continue
+			}
+			plo, phi := p.RawBase(), p.RawBase()+uintptr(p.RawCap()*t.SizeOf)
+			var later []dyn.Buf
+			for _, k2 := range []int{k, k, max(k-1, 1), 1, (k + 1) / 2} {
+				q := t.Alloc(signal.Allocator{Channels: ch, Length: r.Range(0, k2), Capacity: k2})
+				later = append(later, q)
+				if lo, hi := q.RawBase(), q.RawBase()+uintptr(q.RawCap()*t.SizeOf); lo < phi && plo < hi {
+					c.Violate(inst+"|shares-live-storage", caseID, fmt.Sprintf("an allocation of %d frames made after a view of a live buffer was grown by Append overlaps that buffer's storage", k2), d)
+					break
+				}
+				for i := 0; i < q.RawCap(); i++ {
+					if !q.RawAt(i).IsZero() {
+						c.Violate(inst+"|dirty", caseID, fmt.Sprintf("an allocation of %d frames made after a view of a live buffer was grown by Append is not zero at position %d", k2, i), d)
+						break
+					}
+				}
+			}
+			for i, w := range want {
+				if !p.RawAt(i).Same(w) {
+					c.Violate(inst+"|crosstalk", caseID, fmt.Sprintf("a live buffer lost its sample at position %d (%v, now %v) when allocations were made after one of its views had been grown by Append", i, w, p.RawAt(i)), d)
+					break
+				}
+			}
+			runtime.KeepAlive(later)
+			c.Obs("allocations_after_a_view_of_a_live_buffer_was_grown", int64(len(later)))
+		}
 		if k == 0 {
 			c.Obs("zero_capacity_pairs_checked_under_growth", 1)
 		}
